@@ -273,6 +273,25 @@ pub fn finish(rep: Report, spaces: &[Box<dyn Space>], results: Vec<SpaceResult>,
                 break;
             }
         }
+        // a subject that keeps state OUTSIDE the parser (thread-wide, process-wide) shows some symptoms only when the
+        // preceding cases of the enumeration ran on the same thread just before: re-execute with 1, 2, 4 ... 64
+        // predecessors, in order, on this thread
+        let mut predecessors = 0u64;
+        if !reproduced {
+            for k in [1u64, 2, 4, 8, 16, 64] {
+                if *idx < k {
+                    break;
+                }
+                for j in (*idx - k)..*idx {
+                    let _ = eval_caught(spaces[*si].as_ref(), j);
+                }
+                if eval_caught(spaces[*si].as_ref(), *idx).issues.iter().any(|i| &i.sig == sig) {
+                    reproduced = true;
+                    predecessors = k;
+                    break;
+                }
+            }
+        }
         if !reproduced {
             eprintln!("MACHINERY: violation {} at {}[{}] did not reproduce on re-execution", sig, results[*si].name, idx);
             machinery_fail = true;
@@ -282,7 +301,11 @@ pub fn finish(rep: Report, spaces: &[Box<dyn Space>], results: Vec<SpaceResult>,
         let body = json!({
             "property": rep.prop, "tier": rep.tier, "space": results[*si].name, "index": idx,
             "signature": sig, "occurrences": n, "detail": detail, "case": spaces[*si].describe(*idx),
+            "predecessors_needed": predecessors,
         });
+        if predecessors > 0 {
+            println!("  note: reproduces only after the {} preceding case(s) of the space were evaluated on the same thread (state kept outside the parser)", predecessors);
+        }
         let _ = std::fs::write(&path, serde_json::to_string_pretty(&body).unwrap());
         confirmed += 1;
         println!("VIOLATION property={} replay={}", rep.prop, path);
